@@ -508,7 +508,7 @@ func (g *pg) switchStmt(depth int) lang.Stmt {
 	}
 	for i := 0; i <= n; i++ {
 		if i == defAt {
-			sw.Cases = append(sw.Cases, lang.Case{Default: true, Body: g.block(depth - 1)})
+			sw.Cases = append(sw.Cases, lang.Case{Default: true, CaseKw: Uniform(g.t, "casekw", 4) == 0, Body: g.block(depth - 1)})
 		}
 		if i == n {
 			break
